@@ -1,0 +1,53 @@
+//go:build verif
+
+// Copyright Istio Authors
+//
+// Licensed under the Apache License, Version 2.0 (the "License");
+// you may not use this file except in compliance with the License.
+// You may obtain a copy of the License at
+//
+//     http://www.apache.org/licenses/LICENSE-2.0
+//
+// Unless required by applicable law or agreed to in writing, software
+// distributed under the License is distributed on an "AS IS" BASIS,
+// WITHOUT WARRANTIES OR CONDITIONS OF ANY KIND, either express or implied.
+// See the License for the specific language governing permissions and
+// limitations under the License.
+
+package xds
+
+import (
+	"time"
+
+	"go.uber.org/atomic"
+
+	"istio.io/istio/pilot/pkg/model"
+)
+
+// Accessors for the deterministic-simulation harness (only built with the "verif" tag).
+
+// VerifDebounce runs the unexported debounce loop.
+func VerifDebounce(ch chan *model.PushRequest, stopCh <-chan struct{}, after, max time.Duration, edsDebounce bool,
+	pushFn func(req *model.PushRequest), updateSent *atomic.Int64,
+) {
+	debounce(ch, stopCh, DebounceOptions{DebounceAfter: after, debounceMax: max, enableEDSDebounce: edsDebounce}, pushFn, updateSent)
+}
+
+// VerifSetDebounce sets all debounce options of a server that has not been started yet.
+func (s *DiscoveryServer) VerifSetDebounce(after, max time.Duration, edsDebounce bool) {
+	s.DebounceOptions = DebounceOptions{DebounceAfter: after, debounceMax: max, enableEDSDebounce: edsDebounce}
+}
+
+// VerifPushState reports the occupancy of the per-proxy push queue and of the push semaphore.
+func (s *DiscoveryServer) VerifPushState() (pending, processing, inflight int) {
+	s.pushQueue.cond.L.Lock()
+	pending = len(s.pushQueue.pending)
+	processing = len(s.pushQueue.processing)
+	s.pushQueue.cond.L.Unlock()
+	return pending, processing, len(s.concurrentPushLimit)
+}
+
+// VerifSetPushThrottle replaces the push semaphore of a server that has not been started yet.
+func (s *DiscoveryServer) VerifSetPushThrottle(n int) {
+	s.concurrentPushLimit = make(chan struct{}, n)
+}
